@@ -341,6 +341,8 @@ func c18(p *model.Prog, r *report.Result) {
 	}
 	r.Check(okWs, "C18.R5", fkey(ws, "prefix", "add"), p.Pos(ws.Pos()), "prefix string then the original bytes", "the metadata bytes behind the added @setDataFrame prefix are not the unmodified input")
 	c18r6(p, r)
+	w5MetaErr(p, r, "C18.R7")
+	w5BuildMeta(p, r, "C18.R8")
 }
 
 // isLenOf: v is len(<param>).
